@@ -83,15 +83,20 @@ func (e *executor[R]) Apply(innerFn func(failsafe.Execution[R]) *common.PolicyRe
 
 // OnFailure updates failedAttempts and retriesExceeded, and calls event listeners
 func (e *executor[R]) OnFailure(exec policy.ExecutionInternal[R], result *common.PolicyResult[R]) *common.PolicyResult[R] {
-	e.BaseExecutor.OnFailure(exec, result)
-
 	e.mtx.Lock()
+	if e.retriesExceeded {
+		// Another attempt of this execution, such as a hedge, exceeded the retries after this attempt's result was checked in
+		// Apply. Pass the failure through, as Apply does, rather than handling it and calling the listeners a second time.
+		e.mtx.Unlock()
+		return result.WithDone(true, false)
+	}
 	e.failedAttempts++
 	maxRetriesExceeded := e.maxRetries != -1 && e.failedAttempts > e.maxRetries
 	maxDurationExceeded := e.maxDuration != 0 && exec.ElapsedTime() > e.maxDuration
 	retriesExceeded := maxRetriesExceeded || maxDurationExceeded
 	e.retriesExceeded = retriesExceeded
 	e.mtx.Unlock()
+	e.BaseExecutor.OnFailure(exec, result)
 	isAbortable := e.IsAbortable(result.Result, result.Error)
 	shouldRetry := !isAbortable && !retriesExceeded && e.allowsRetries()
 	done := isAbortable || !shouldRetry
